@@ -171,6 +171,15 @@ def judge_start(root, files, main, base, start, R, refs_of, caches, economy):
     return fails, raised
 
 
+CLAUSE = {
+    'the occurrence under the cursor is not among its own references': 'self',
+    'references are not a partition: asking from a reported occurrence gives another set': 'partition',
+    'rename does not rewrite exactly the reported references': 'exactness',
+    'renamed program behaves differently': 'behaviour',
+    'renaming back does not restore the text': 'rename-back',
+}
+
+
 def _replace_mixed(code, toks, new):
     lines = code.split('\n')
     for (_, l, c, spelling) in sorted(toks, key=lambda t: (t[1], t[2]), reverse=True):
@@ -304,4 +313,8 @@ WITNESSES = [
                                         '    else:\n        from slow import helper\n    return helper(val)\n\n\n'
                                         'print(helper(1), choose(1), choose(2))\n'}),
      'main': 'main.py', 'features': ['witness:tie-if']},
+    # a parameter declared in one module and passed by keyword in another: the search stays in the declaring module
+    {'files': {'fast.py': 'def helper(val, *, scale=2):\n    return val * scale\n',
+               'main.py': 'from fast import helper\n\nprint(helper(2, scale=3))\n'},
+     'main': 'main.py', 'features': ['witness:parameter-keyword-in-other-module']},
 ]
